@@ -32,6 +32,8 @@ RULE = ("sync: 4-25 events (battery/inverter messages healthy or faulty in one w
         "future-stamped, timer ticks mostly exactly one max-age after the stream's last arrival, set-power results) with "
         "time steps from {0, 1/8 s, 1 s, 2 s, 4 s, maxAge-1/8, maxAge, maxAge+1/8, block expiry-1/8, expiry, expiry+1/8}; "
         "actor: 4-20 timed actions on a 1/8 s grid with real timers; pool: 3-15 status/selection ops, 3 batteries; "
+        "long failure runs (sync and actor): a healthy battery with 50-80 consecutive failed commands, each at / just after "
+        "the expiry of the previous block, then a success and a failure (back-off starts over); "
         "non-trivial = the battery is reported WORKING at least once and the case contains a disqualifying event, an "
         "effective failure or a non-punctual timestamp; distinct by canonical JSON hash")
 
@@ -63,10 +65,10 @@ def diff(ctx: Ctx, cases: list[dict], impl: list[Any], mod: list[Any] | None, wh
 # --------------------------------------------------------------------------- sync seam
 def sync_oracle(case: dict, out: dict) -> g.EventOracle:
     orc = g.EventOracle(case["maxAge"], case["maxBlk"])
-    if "crash" in out:
-        orc.violations.append(("crash: the select loop raised", {"at": out["crash"]}, None))
     for i, (ev, o) in enumerate(zip(case["events"], out["out"])):
         orc.feed(i, ev, o)
+    if "crash" in out:  # after the clauses of the property text, so that those name the failing input first
+        orc.violations.append(("crash: the select loop raised", {"at": out["crash"]}, None))
     return orc
 
 
@@ -80,6 +82,16 @@ def shrink_sync(case: dict, clause: str) -> dict:
         return any(v[0].split(":")[0] == clause.split(":")[0] and v[2] is None for v in sync_oracle(c, o).violations)
 
     cur = case
+    if len(case["events"]) > 40:  # a long history: only cut it after the failing event (bisection)
+        lo, hi = 1, len(case["events"])
+        while lo < hi:
+            mid = (lo + hi) // 2
+            if fails(dict(case, events=case["events"][:mid])):
+                hi = mid
+            else:
+                lo = mid + 1
+        c = dict(case, events=case["events"][:lo])
+        return c if fails(c) else case
     for n in range(1, len(case["events"]) + 1):
         c = dict(case, events=case["events"][:n])
         if fails(c):
@@ -156,6 +168,7 @@ def check_actor(ctx: Ctx, case: dict) -> tuple[dict, dict, bool]:
         if st == prev:
             viol.append(("on-change: notification equals the previous one", {"t": t, "status": st}, None))
         prev = st
+    viol += g.actor_backoff_oracle(case, out["notes"])
     for clause, obs, regime in viol:
         ctx.violation(clause, case, obs, regime)
     race = has_race(out["log"])
@@ -480,6 +493,10 @@ def run(ctx: Ctx) -> None:
     for i in range(n_actor):
         rng = ctx.subrng("actor", i)
         actor_cases.append(g.gen_actor_case(rng, rng.randint(4, 20), races=(i % 5 == 0)))
+    for i in range(ctx.budget(6, 40)):
+        sync_cases.append(g.gen_long_failures_sync(ctx.subrng("sync-long", i)))
+    for i in range(ctx.budget(2, 10)):
+        actor_cases.append(g.gen_long_failures_actor(ctx.subrng("actor-long", i)))
     for i in range(n_fold):
         fold_cases.append(gen_pool_fold(ctx.subrng("fold", i)))
     for i in range(n_pool):
